@@ -233,8 +233,8 @@ def history(draw: Any, cfg: GenCfg = GenCfg()) -> Dict[str, Any]:
     n_steps = draw(st.integers(cfg.min_steps, cfg.max_steps))
     state = _State()
     state.next_row = cfg.first_row
-    in_cycle = 0
-    out_cycle = 0
+    in_cycle = draw(st.integers(0, len(cfg.in_types) - 1)) if cfg.force_type_cycle else 0
+    out_cycle = draw(st.integers(0, len(cfg.out_types) - 1)) if cfg.force_type_cycle else 0
 
     for step in range(n_steps):
         _draw_instant(draw, cfg, state, first=(step == 0))
